@@ -2,7 +2,8 @@
    Statements only.  [veval] is the executable model of the code (what each operation hands to the
    constructor + the `valid` setter's normalisation, with rejections); [sem] is the plain reading of
    the property (operand masks, cell-wise AND, gathers).  Masks have arbitrary shapes and sizes. *)
-From DF Require Import Prelude NDArray Valid C08_arrays C08_valid C08_maps.
+From DF Require Import Prelude NDArray Valid C08_arrays C08_valid C08_maps C08_reals.
+From Coq Require Import Reals Qreals.
 Open Scope nat_scope.
 
 (* --- unary operations (neg, abs, component, norm, orientation, complex parts, diff, scalar
@@ -32,6 +33,29 @@ Proof. reflexivity. Qed.
 Theorem C08_binary_rejects_other_mesh : forall b v1 v2, msh v1 <> msh v2 -> bin_sem b v1 v2 = Err ValueE.
 Proof. exact bin_sem_rejects. Qed.
 Print Assumptions C08_binary_rejects_other_mesh.
+
+(* same n but a region displaced on the common lattice: rejected as well; same position: the plain
+   binary operation *)
+Theorem C08_binary_rejects_shifted_mesh : forall env nd b e1 e2 v1 v2 o1 o2,
+  veval env e1 = OK v1 -> veval env e2 = OK v2 ->
+  eorigin nd e1 = Some o1 -> eorigin nd e2 = Some o2 -> zlist_eqb o1 o2 = false ->
+  veval_bin_geo env nd b e1 e2 = Some (Err ValueE).
+Proof. exact bin_geo_rejects_shifted. Qed.
+Print Assumptions C08_binary_rejects_shifted_mesh.
+
+Theorem C08_binary_same_position : forall env nd b e1 e2 v1 v2 o,
+  veval env e1 = OK v1 -> veval env e2 = OK v2 ->
+  eorigin nd e1 = Some o -> eorigin nd e2 = Some o -> msh v1 = msh v2 ->
+  veval_bin_geo env nd b e1 e2 = Some (veval env (Bin b e1 e2)).
+Proof. exact bin_geo_same_mesh. Qed.
+Print Assumptions C08_binary_same_position.
+
+Example C08_binary_shifted_nonvacuous :
+  veval_bin_geo [mkM [2] [true; false]; mkM [2] [true; true]] 1 BAdd (Leaf 0)
+    (Map (MRange 0 1 2) (Map (MPad PEdge 0 0 1 false) (Leaf 1))) = Some (Err ValueE) /\
+  veval_bin_geo [mkM [2] [true; false]; mkM [2] [true; true]] 1 BAdd (Leaf 0)
+    (Map (MRange 0 1 2) (Map (MPad PEdge 0 1 0 false) (Leaf 1))) = Some (OK (mkM [2] [true; false])).
+Proof. split; reflexivity. Qed.
 
 (* --- every composition: the model of the code computes exactly the plain reading *)
 Theorem C08_expr : forall env e, Forall wf env -> forall v, veval env e = OK v -> v = sem env e /\ wf v.
@@ -86,6 +110,24 @@ Example C08_mapped_nonvacuous :
   inb (map_shape (MPad PReflect 1 5 2 false) [2; 3]) [1; 0] = true /\
   map_idx (MPad PReflect 1 5 2 false) [2; 3] [1; 0] = Some [1; 1].
 Proof. repeat split; reflexivity. Qed.
+
+(* one pad call with widths on two axes = the composition of the single-axis gathers, in either order *)
+Theorem C08_pad_two_axes_is_composition : forall (V : Type) md sh a ba aa b bb ab (fill : V) (src : idx -> V) i,
+  a <> b ->
+  gather_pad2 md sh a ba aa b bb ab fill src i =
+  gather (MPad md a ba aa true) (map_shape (MPad md b bb ab true) sh) fill
+         (gather (MPad md b bb ab true) sh fill src) i.
+Proof. exact @pad2_is_composition. Qed.
+Print Assumptions C08_pad_two_axes_is_composition.
+
+Theorem C08_pad_axes_commute : forall (V : Type) md sh a ba aa b bb ab (fill : V) (src : idx -> V) i,
+  a <> b ->
+  gather (MPad md a ba aa true) (map_shape (MPad md b bb ab true) sh) fill
+         (gather (MPad md b bb ab true) sh fill src) i =
+  gather (MPad md b bb ab true) (map_shape (MPad md a ba aa true) sh) fill
+         (gather (MPad md a ba aa true) sh fill src) i.
+Proof. exact @pad_axes_commute. Qed.
+Print Assumptions C08_pad_axes_commute.
 
 (* the gather is the same for every cell-wise payload (values, validity) *)
 Theorem C08_mapped_same_for_data_and_validity : forall (A B : Type) (g : A -> B) m sh fill (src : idx -> A) i,
@@ -156,3 +198,40 @@ Theorem C08_norm_zero_vector_invalid : forall atol v, Forall (fun x => x == 0)%Q
   norm_valid_at atol v = false.
 Proof. exact norm_valid_zero. Qed.
 Print Assumptions C08_norm_zero_vector_invalid.
+
+(* --- the 'norm' clause in the property's own words (stdlib reals): a cell is valid iff the Euclidean
+       length of its value exceeds the absolute threshold *)
+Theorem C08_sqrt_bridge : forall x a : R, (0 <= x)%R -> (0 <= a)%R -> ((sqrt x <= a)%R <-> (x <= a * a)%R).
+Proof. exact sqrt_le_sq. Qed.
+Print Assumptions C08_sqrt_bridge.
+
+(* numpy.isclose(x, 0, rtol, atol): rtol * |0| = 0, only atol matters (formula of Prelude.isclose) *)
+Theorem C08_isclose_zero_only_atol : forall rtol atol a : Q,
+  isclose rtol atol a 0 = true <-> (Qabs a <= atol)%Q.
+Proof. exact isclose_zero_Q. Qed.
+Print Assumptions C08_isclose_zero_only_atol.
+
+Theorem C08_isclose_zero_only_atol_R : forall rtol atol a : R,
+  Risclose rtol atol a 0 <-> (Rabs a <= atol)%R.
+Proof. exact Risclose_zero. Qed.
+Print Assumptions C08_isclose_zero_only_atol_R.
+
+Theorem C08_norm_valid_iff_length_exceeds_threshold : forall (atol : Q) (v : list Q), (0 <= atol)%Q ->
+  (norm_valid_at atol v = true <-> (Q2R atol < sqrt (Rsumsq (map Q2R v)))%R).
+Proof. exact norm_valid_length. Qed.
+Print Assumptions C08_norm_valid_iff_length_exceeds_threshold.
+
+Theorem C08_norm_invalid_iff_length_up_to_threshold : forall (atol : Q) (v : list Q), (0 <= atol)%Q ->
+  (norm_valid_at atol v = false <-> (sqrt (Rsumsq (map Q2R v)) <= Q2R atol)%R).
+Proof. exact norm_valid_false_length. Qed.
+Print Assumptions C08_norm_invalid_iff_length_up_to_threshold.
+
+(* = ~np.isclose(norm, 0) whatever rtol is *)
+Theorem C08_norm_valid_is_not_isclose : forall (rtol : R) (atol : Q) (v : list Q), (0 <= atol)%Q ->
+  (norm_valid_at atol v = true <-> ~ Risclose rtol (Q2R atol) (sqrt (Rsumsq (map Q2R v))) 0).
+Proof. exact norm_valid_not_isclose. Qed.
+Print Assumptions C08_norm_valid_is_not_isclose.
+
+Example C08_norm_nonvacuous :
+  (0 <= norm_atol)%Q /\ norm_valid [(3 # 1)%Q; (4 # 1)%Q] = true /\ norm_valid [0%Q; 0%Q] = false.
+Proof. split; [unfold Qle; simpl; lia | split; reflexivity]. Qed.
